@@ -198,6 +198,32 @@ def op_update_key(msg, ref):
 op_update_key.base = "update_key"
 
 
+def op_refused(kind):
+    """calls the message must refuse; whatever part of them it carried out before refusing, names, list and length stay coherent"""
+    def f(msg, ref):
+        names = list(names_of(msg))
+        if kind == "append-non-avp":
+            msg.append("not an AVP")
+        elif kind == "extend-with-junk-at-the-end":
+            msg.extend([fresh("A"), fresh("U"), 42])
+        elif kind == "avps=-with-junk":
+            msg.avps = [fresh("S"), None]
+        elif kind == "pop-unknown":
+            msg.pop("no_such_avp")
+        elif kind == "setitem-out-of-range":
+            msg[len(msg._avps) + 3] = fresh("A")
+        elif kind == "update_avp-unknown":
+            msg.update_avp("no_such_avp", "x")
+        elif kind == "update_key-unknown":
+            msg.update_key("no_such_avp", "other_avp")
+        elif kind == "update_avps-unknown":
+            msg.update_avps({"no_such": "x", "origin_host": "y.z"} if "origin_host_avp" in names else {"no_such": "x"})
+    f.__name__ = "refused(%s)" % kind
+    f.base = "refused-" + kind
+    f.resync = True
+    return f
+
+
 def op_update_key_clash(msg, ref):
     """a renaming the message must refuse (the new name belongs to another listed AVP): refused or not, names, list and
     length stay coherent"""
@@ -253,7 +279,9 @@ op_refresh.base = "refresh"
 
 OPS = [op_append("A"), op_append("A"), op_append("B"), op_append("U"), op_append("G"), op_append("R"), op_append("V"), op_append("P"),
        op_pop("first"), op_pop("last"), op_pop("mid"), op_cleanup, op_setavps("AB"), op_setavps("A"), op_setitem("first", "B"),
-       op_setitem("last", "A"), op_setitem("last", "U"), op_setitem("first", "P"), op_update_key, op_update_key_clash, op_update_avps("new.host"), op_update_avps("x"), op_refresh,
+       op_setitem("last", "A"), op_setitem("last", "U"), op_setitem("first", "P"), op_update_key, op_update_key_clash, op_refused("append-non-avp"), op_refused("extend-with-junk-at-the-end"), op_refused("avps=-with-junk"), op_refused("pop-unknown"),
+       op_refused("setitem-out-of-range"), op_refused("update_avp-unknown"), op_refused("update_key-unknown"), op_refused("update_avps-unknown"),
+       op_update_avps("new.host"), op_update_avps("x"), op_refresh,
        op_extend("AU"), op_append("S"), op_update_avp("a.much.longer.host.name"), op_update_avp("q"), op_append_again]
 OPS = OPS[1:]   # one append(A) is enough: every call creates a fresh, equal-valued object
 
@@ -283,12 +311,17 @@ def apply(acc, msg, ref, op, trace):
     op.detail = None
     try:
         op(msg, ref)
+        if getattr(op, "resync", False):
+            ref.lst[:] = list(msg._avps)        # an ill-formed call the message chose to carry out (in part): taken as it is
     except BaseException as ex:
         import bromelia.exceptions as E
-        if type(ex).__module__ == E.__name__:
+        if type(ex).__module__ == E.__name__ or (getattr(op, "resync", False) and isinstance(ex, (KeyError, IndexError, TypeError, AttributeError, ValueError))):
             acc.counters["library_error_ops"] += 1
             # rejected operation: both containers must be unchanged -> fall through to the invariants
-            ref.lst[:] = [o for o in ref.lst]
+            # (for the deliberately ill-formed calls, whatever part was carried out before the refusal is taken as it is)
+            if getattr(op, "resync", False):
+                ref.lst[:] = list(msg._avps)
+                acc.counters["refused_calls"] += 1
         else:
             acc.violation("%s-raises-%s" % (op.base, type(ex).__name__), "%s raised %r after %s" % (name, ex, trace),
                           {"trace": trace + [name]})
@@ -309,7 +342,12 @@ def rebuild(start, trace_idx):
     msg = start_message(start)
     ref = Ref(msg)
     for i in trace_idx:
-        OPS[i](msg, ref)
+        try:
+            OPS[i](msg, ref)
+        except BaseException:
+            pass        # a call the message refused when the path was first walked: judged there, the walk went on from what was left
+        if getattr(OPS[i], "resync", False):
+            ref.lst[:] = list(msg._avps)
     return msg, ref
 
 
